@@ -158,3 +158,20 @@ package stream
 //@   safety -all
 //@   assert-call writeUnit: old(ss.Stream.subStream) == ss
 //@   ensures [stale-sub-stream-delivers-nothing] old(ss.Stream.subStream) != ss ==> called(writeUnit) == 0
+
+// C23 (in-repo glue only): once a format re-packetizes (its RTP encoder exists), what is delivered for a unit is the
+// output of that encoder for the unit's remuxed payload, or nothing - never the publisher's original packets; the
+// encoder is created with the configured maximum payload size for the outgoing format, only while none exists,
+// and it is fed exactly the remuxed payload.
+
+//@ func (ssf *subStreamFormat) writeUnitInner
+//@   property C23
+//@   safety -all
+//@   opaque-call multiplyAndDivide2
+//@   opaque-call Estimate
+//@   domain ssf.streamFormat != nil && u != nil
+//@   loop 1 invariant ssf.streamFormat.rtpEncoder == nil
+//@   assert-call newRTPEncoder: forma == ssf.streamFormat.outFormat && rtpMaxPayloadSize == ssf.streamFormat.rtpMaxPayloadSize && ssf.streamFormat.rtpEncoder == nil
+//@   assert-call encode: arg0 == ssf.streamFormat.rtpEncoder && arg1 == u.Payload
+//@   assert-call writeRTSP: ssf.streamFormat.rtpEncoder != nil ==> len(arg0) == 0 || (called(encode) == 1 && resultof(encode, 1) == nil && arg0 == resultof(encode, 0))
+//@   ensures [delivered-once] result == nil ==> called(writeRTSP) == 1
